@@ -32,6 +32,8 @@ def prove(name, goal, expect="proved", replay=None, note=None, kind="post", step
     goal is refuted the model shown to the replay is taken from it if it is satisfiable too
     (solvers like to return boundary models that float rounding cannot reproduce)"""
     s = cur()
+    if samples is None:
+        samples = s.ghost.get("default_samples")
     ob = Obligation(name, kind, goal, list(s.facts), list(s.pc),
                     {"expect": expect, "replay": replay, "note": note, "watches": list(s.watches),
                      "steps": steps, "timeout": timeout, "samples": samples, "strong_neg": strong_neg})
@@ -501,3 +503,18 @@ class lazy_safety:
 
     def __exit__(self, *a):
         T._safety_off[0] -= 1
+
+
+def sum_by_induction(label, S, at, n, closed):
+    """lemma 'sum-induction' (Finset.sum_range_succ): if g(0)=0 and g(k+1)-g(k)=f(k) for all
+    0<=k<n then sum_{i<n} f(i) = g(n).  The two premises are obligations (generic k); the
+    conclusion is then recorded as a fact about the abstract sum symbol S."""
+    s = cur()
+    k = s.fresh("k", "Int")
+    with T.no_safety():
+        prove("%s/sum-induction/base" % label, T.treal(closed(0)) == 0, kind="lemma")
+        prove("%s/sum-induction/step" % label,
+              z3.Implies(z3.And(k >= 0, k < T.tz(n)),
+                         T.treal(closed(k + 1)) - T.treal(closed(k)) == T.treal(at(k))), kind="lemma")
+        s.add_fact(S == T.treal(closed(T.tz(n))))
+    s.notes.append("lemma sum-induction used for " + label)
